@@ -298,7 +298,39 @@ type gatedRT struct {
 	leave func(x gi)
 }
 
+// the time a source is given is a function of the source alone (`?seconds=N` in its URL: N*1.5 s + 5 s, else 65 s): the
+// deadline of the request that reaches the transport must be the one this source gets when it is fetched alone. The
+// classes are 55 s or more apart; a deadline within 20 s of the source's own class is accepted, one within 20 s of
+// ANOTHER class is a violation, anything else is an unexplained observation (exit 2).
+func checkDeadline(req *http.Request) {
+	want := 65 * time.Second
+	if n, err := strconv.Atoi(req.URL.Query().Get("seconds")); err == nil && n > 0 {
+		want = time.Duration(n)*time.Second*3/2 + 5*time.Second
+	}
+	dl, ok := req.Context().Deadline()
+	if !ok {
+		run.Violate("fetch", "fetch-deadline:none", fmt.Sprintf("the request for %s carries no deadline; fetched alone it is given %v", req.URL, want), req.URL.String(), nil)
+		return
+	}
+	near := func(a, b time.Duration) bool { d := a - b; return d > -20*time.Second && d < 20*time.Second }
+	rem := time.Until(dl)
+	run.Counter("deadlines_checked", 1)
+	if near(rem, want) {
+		return
+	}
+	for _, other := range []time.Duration{65 * time.Second, 9500 * time.Millisecond, 305 * time.Second} {
+		if near(rem, other) {
+			run.Violate("fetch", "fetch-deadline:another-source's", fmt.Sprintf("the request for %s is given %v; fetched alone this source is given %v (the time allowed belongs to another source of the run)", req.URL, rem.Round(time.Second), want), req.URL.String(), nil)
+			return
+		}
+	}
+	run.Infra(fmt.Sprintf("request for %s: %v left until its deadline, expected %v", req.URL, rem, want))
+}
+
 func (t *gatedRT) RoundTrip(req *http.Request) (*http.Response, error) {
+	if pathRE.MatchString(req.URL.Path) {
+		checkDeadline(req)
+	}
 	if m := pathRE.FindStringSubmatch(req.URL.Path); m != nil {
 		i, _ := strconv.Atoi(m[4])
 		x := gi{m[3], i}
@@ -396,6 +428,10 @@ func runOne(c *bcase, schedule string) fetchEvent {
 				host = strings.TrimPrefix(remote.plain.URL, "http://")
 			}
 			n = fmt.Sprintf("%s://%s/c16/%s/%d/%s/%d", scheme, host, class, status, g, i)
+			// the time allowed per source: the default, a short and a long one next to each other in one run
+			if secs := []int{0, 3, 200}[(i+len(g)+pick.Intn(3))%3]; secs > 0 {
+				n += fmt.Sprintf("?seconds=%d", secs)
+			}
 			pl.byDriver = true
 			pl.atRT = gated
 		default:
